@@ -12,8 +12,8 @@ import RTV.Gen.CharTables
   pres <culture> <p> <cps>      (percentage parser, number text)  -> cps | err:<Kind>
   cjkpres <culture> <p> <cps>   (CJK per_parse 'Num', text before %) -> cps | err:<Kind>
   floatrepr <neg> <coeff> <exp> (repr(float(d)), <= 15 digits)   -> cps
-  giv <culture> <tok cps>...    (__get_int_value)                 -> n | err:<Kind>
-  tres <culture> <p> <tok cps>...                                 -> cps | err:<Kind>
+  giv <culture> <fx> <tok cps>...  (__get_int_value; fx = 1: index-0 scan variant) -> n | err:<Kind>
+  tres <culture> <fx> <p> <tok cps>...                                 -> cps | err:<Kind>
   rcn <culture> <cps>           (resolve_composite_number)        -> n
   nts <tok cps>...              (English normalize_token_set)     -> tok;tok;...
   spell <n> <andHundred> <andFinal> <hyphen> <ord>                -> text cps | tok;tok;...
@@ -103,12 +103,12 @@ def hFloatRepr : Handler
   | _ => "bad-op"
 
 def hGiv : Handler
-  | cu :: toks => withCulture cu fun c => showRes (getIntValue pyDigits c.lang (toks.map parseCps))
+  | cu :: fx :: toks => withCulture cu fun c => showRes (getIntValue (parseBool fx) pyDigits c.lang (toks.map parseCps))
   | _ => "bad-op"
 
 def hTres : Handler
-  | cu :: p :: toks => withCulture cu fun c =>
-    match textResolution (parseNat p) pyDigits c.lang c.longFormat (toks.map parseCps) with
+  | cu :: fx :: p :: toks => withCulture cu fun c =>
+    match textResolution (parseBool fx) (parseNat p) pyDigits c.lang c.longFormat (toks.map parseCps) with
     | (.ok _, s) => showCps s
     | (r, _) => showRes r
   | _ => "bad-op"
